@@ -156,6 +156,11 @@ FIXED += [
   'with dereferencing on, "src/l -> ../ext1" and "ext1/dir/e -> ../../ext2" packed ext2/f under the entry name "../ext1/dir/e/f", a slug that Unpack refuses'),
 ]
 
+FIXED += [
+ ("C05", "out-of-tree-link-stored", "fix: judge a link inside a dereferenced directory at its place in the slug",
+  'with dereferencing on, "l -> ../proj/deep/sub" (a directory of the tree, reached by way of the tree\'s own name) was walked and its inner link "k -> ../../top.txt" stored as "l/k -> ../../top.txt", which climbs out of the slug: Unpack refused the slug'),
+]
+
 OPEN = [
  # (property, key, what fails)
  ("C06", "edge-whitespace",
